@@ -37,6 +37,11 @@ type TCase struct {
 	// it); what is written through it is counted in the temporal store behind it.
 	Regular  string `json:"regular,omitempty"`
 	SepFacts int    `json:"sepFacts,omitempty"`
+	// History > 0: before the evaluation the temporal store already holds History atoms of a predicate the program
+	// does not mention, each with HistIvs overlapping intervals, and Coalesce has been called for that predicate
+	// (a store with a past; nothing of it counts as created).
+	History int `json:"history,omitempty"`
+	HistIvs int `json:"histIvs,omitempty"`
 }
 
 // regularKinds are the values of TCase.Regular the generator draws from (adapters: 8 of 14).
@@ -126,6 +131,22 @@ func checkTemporal(run *stats.Run, f stats.Failer, c TCase) verdict {
 	if c.Cap > 0 {
 		tinner = factstore.NewTemporalStore(factstore.WithMaxIntervalsPerAtom(c.Cap))
 	}
+	if c.History > 0 {
+		day := int64(24 * 3600 * 1e9)
+		start := time.Date(2020, 1, 1, 0, 0, 0, 0, time.UTC).UnixNano()
+		for a := 0; a < c.History; a++ {
+			for k := 0; k < c.HistIvs; k++ {
+				iv := ast.NewInterval(ast.NewTimestampBound(time.Unix(0, start+int64(k)*day).UTC()), ast.NewTimestampBound(time.Unix(0, start+int64(k+2)*day).UTC()))
+				if _, err := tinner.Add(ast.NewAtom("past", ast.Number(int64(a))), iv); err != nil {
+					run.Failf(f, "harness: the temporal store refused a fact of its history: %v", err)
+				}
+			}
+		}
+		if err := tinner.Coalesce(ast.PredicateSym{Symbol: "past", Arity: 1}); err != nil {
+			run.Failf(f, "Coalesce failed on the history of the temporal store: %v", err)
+		}
+		v.labels = append(v.labels, "temporal-store-with-coalesced-history")
+	}
 	temporal := countingTemporal{TemporalFactStore: tinner, created: &created, bound: B}
 	evalTime := time.Date(2024, 6, 1, 0, 0, 0, 0, time.UTC)
 	// the regular store: an in-memory kind behind the counting wrapper, or an adapter over a (counting) temporal store
@@ -170,6 +191,9 @@ func checkTemporal(run *stats.Run, f stats.Failer, c TCase) verdict {
 			shown += fmt.Sprintf(" holding %d facts", c.SepFacts)
 		}
 		shown += "\n"
+	}
+	if c.History > 0 {
+		shown += fmt.Sprintf("temporal store: holds %d atoms of past/1 with %d overlapping intervals each, coalesced before the evaluation\n", c.History, c.HistIvs)
 	}
 	var evalErr error
 	var over *overrun
@@ -267,6 +291,13 @@ func TestC17_Temporal(t *testing.T) {
 		c.Regular = rapid.SampledFrom(regularKinds).Draw(rt, "regular")
 		if strings.HasSuffix(c.Regular, "-separate") {
 			c.SepFacts = rapid.IntRange(0, 3).Draw(rt, "sepFacts")
+		}
+		if rapid.IntRange(0, 2).Draw(rt, "withHistory") == 0 {
+			c.History = rapid.IntRange(1, 8).Draw(rt, "history")
+			c.HistIvs = rapid.IntRange(2, 5).Draw(rt, "histIvs")
+			if c.Cap > 0 && c.HistIvs > c.Cap {
+				c.HistIvs = c.Cap
+			}
 		}
 		run.Current(c)
 		vd := checkTemporal(run, rt, c)
